@@ -19,6 +19,10 @@ instance exceptDecEq {ε α : Type} [DecidableEq ε] [DecidableEq α] : Decidabl
   | .ok _, .error _ => isFalse (fun e => by injection e)
   | .error _, .ok _ => isFalse (fun e => by injection e)
 
+deriving instance DecidableEq for Res
+deriving instance DecidableEq for Prepared
+deriving instance DecidableEq for Builder
+
 /-! ### the records of `ToyScheme.lean` are valid -/
 
 /-- `r1` = `r0` after `set_udp4(30303)` signed with its own key -/
@@ -56,26 +60,154 @@ def r0Text : Bytes :=
 
 theorem r0_toText : r0.toText = r0Text := by decide
 
-/-! ### byte strings that are *not* records (each differs from `r0Bytes` in one respect) -/
+/-- "enr:2IQBAgMUAoJpZIJ2NHSDAQIDg3VkcIJ2Xw" (25 bytes of RLP, 34 characters: the last one carries
+    four trailing zero bits) -/
+def r1Text : Bytes :=
+  [101, 110, 114, 58, 50, 73, 81, 66, 65, 103, 77, 85, 65, 111, 74, 112, 90, 73, 74, 50, 78, 72,
+   83, 68, 65, 81, 73, 68, 103, 51, 86, 107, 99, 73, 74, 50, 88, 119]
 
-/-- the two pairs of `r0` in the wrong order: `"t"` before `"id"` -/
+theorem r1_toText : r1.toText = r1Text := by decide
+
+theorem r012_valid : ∀ r ∈ [r0, r1, r2], Valid tinyS r := by
+  intro r hr
+  simp only [List.mem_cons, List.not_mem_nil, or_false] at hr
+  rcases hr with rfl | rfl | rfl
+  · exact r0_valid
+  · exact r1_valid
+  · exact r2_valid
+
+/-- the decoder, run by the kernel on the 18 literal bytes, returns `r0` and consumes everything -/
+theorem r0Bytes_decodes : decode tinyS r0Bytes = .ok (r0, []) := by decide +kernel
+
+/-- its RLP header: a list announcing 17 bytes, and 17 bytes follow (one complete item) -/
+theorem r0Bytes_header : decodeHeader r0Bytes = .ok (⟨true, 17⟩, r0Bytes.drop 1) := by decide
+
+/-- `r0Bytes` satisfies the declarative description of a record, shown by exhibiting signature,
+    sequence number and pairs (no decoder involved) -/
+theorem r0Bytes_wellFormed : WellFormed tinyS r0Bytes :=
+  ⟨[1, 2, 3, 13], 1, content0, by decide, by decide, by decide, r0_contentOK, by decide,
+   pk0, r0_pub, by decide⟩
+
+/-! ### a record with every kind of entry: six more own-key updates of `r0` -/
+
+/-- the toy signer's answer to an update of `r` with `pk0` -/
+def tinyAns (r : Record) (op : Op tinyS) : Option Bytes :=
+  (signRequest tinyS r op pk0).map (tinySign pk0)
+
+/-- the record after that update -/
+def tinyUpd (r : Record) (op : Op tinyS) : Record := (step tinyS r op pk0 (tinyAns r op)).2
+
+/-- 2001:db8::1 -/
+def ip6x : Bytes := [32, 1, 13, 184, 0, 0, 0, 0, 0, 0, 0, 0, 0, 0, 0, 1]
+
+def opA : Op tinyS := .setUdpSocket [10, 0, 0, 1] 30303
+def opB : Op tinyS := .setTcp4 80
+def opC : Op tinyS := .setIp ip6x
+def opD : Op tinyS := .setClientInfo [97] [98, 98] (some [99])
+def opE : Op tinyS := .insert [120] (.bytes [7, 7])
+def opF : Op tinyS := .setTcpSocket ip6x 443
+
+def rA : Record := tinyUpd r0 opA
+def rB : Record := tinyUpd rA opB
+def rC : Record := tinyUpd rB opC
+def rD : Record := tinyUpd rC opD
+def rE : Record := tinyUpd rD opE
+def rF : Record := tinyUpd rE opF
+
+section
+set_option maxRecDepth 100000
+
+theorem stepA_ok : step tinyS r0 opA pk0 (tinyAns r0 opA) = (.ok .unit, rA) := by rfl
+theorem stepB_ok : step tinyS rA opB pk0 (tinyAns rA opB) = (.ok (.prevPort none), rB) := by rfl
+theorem stepC_ok : step tinyS rB opC pk0 (tinyAns rB opC) = (.ok (.prevIp none), rC) := by rfl
+theorem stepD_ok : step tinyS rC opD pk0 (tinyAns rC opD) = (.ok .unit, rD) := by rfl
+theorem stepE_ok : step tinyS rD opE pk0 (tinyAns rD opE) = (.ok (.prevRaw none), rE) := by rfl
+theorem stepF_ok : step tinyS rE opF pk0 (tinyAns rE opF) = (.ok .unit, rF) := by rfl
+
+/-- the result, written out: 9 pairs, sequence number 7, 85 bytes -/
+theorem rF_eq : rF =
+    { seq := 7, nodeId := [1, 2, 3],
+      content :=
+        [(kClient, [197, 97, 130, 98, 98, 99]), (kId, [130, 118, 52]), (kIp, [132, 10, 0, 0, 1]),
+         (kIp6, 144 :: ip6x), (kT, [131, 1, 2, 3]), (kTcp, [80]), (kTcp6, [130, 1, 187]),
+         (kUdp, [130, 118, 95]), ([120], [130, 7, 7])],
+      sig := [1, 2, 3, 80] } := by decide
+
+end
+
+theorem opsAF_wf : opA.WF ∧ opB.WF ∧ opC.WF ∧ opD.WF ∧ opE.WF ∧ opF.WF :=
+  ⟨⟨.inl rfl, by decide⟩, (by decide : (80 : Nat) < 65536), .inr rfl,
+   ⟨by decide, by decide, by decide, fun x hx => by cases hx; decide⟩,
+   ⟨by decide, (by decide : ([7, 7] : Bytes).length < 2 ^ 64)⟩, ⟨.inr rfl, by decide⟩⟩
+
+theorem rF_valid : Valid tinyS rF := by
+  obtain ⟨wA, wB, wC, wD, wE, wF⟩ := opsAF_wf
+  have hA := (step_ok_facts tinyS_lawful r0_valid (callOK_tiny r0 opA pk0 wA) stepA_ok).1
+  have hB := (step_ok_facts tinyS_lawful hA (callOK_tiny rA opB pk0 wB) stepB_ok).1
+  have hC := (step_ok_facts tinyS_lawful hB (callOK_tiny rB opC pk0 wC) stepC_ok).1
+  have hD := (step_ok_facts tinyS_lawful hC (callOK_tiny rC opD pk0 wD) stepD_ok).1
+  have hE := (step_ok_facts tinyS_lawful hD (callOK_tiny rD opE pk0 wE) stepE_ok).1
+  exact (step_ok_facts tinyS_lawful hE (callOK_tiny rE opF pk0 wF) stepF_ok).1
+
+/-- a seventh update, `remove_insert`: remove `udp` (named twice) and `"x"`, insert `"y"` twice and
+    `tcp` = `1f 90` -/
+def opG : Op tinyS :=
+  .removeInsert [kUdp, kUdp, [120]] [([121], [1]), ([121], [2, 2]), (kTcp, [31, 144])]
+
+def rG : Record := tinyUpd rF opG
+
+set_option maxRecDepth 100000 in
+/-- it returns the removed values (the second `udp`: nothing left to remove) and the values the
+    inserted keys had just before -/
+theorem stepG_ok : step tinyS rF opG pk0 (tinyAns rF opG) =
+    (.ok (.prevLists [some [130, 118, 95], none, some [130, 7, 7]] [none, some [1], some [80]]), rG) := by
+  decide +kernel
+
+/-! ### records near the size limit (for C09)
+
+The size theorems speak about 64-byte signatures; `step` and `build` do not look into the signature,
+so a `tinyS` record carrying 64 bytes in that field will do (it is not `Valid`, and need not be). -/
+
+def sig64 : Bytes := List.replicate 64 1
+
+/-- 192 bytes, at sequence number 127 (the next one, 128, takes one byte more on the wire) -/
+def rBig : Record :=
+  ⟨127, [1, 2, 3],
+   [(kId, encBytes vV4), (kT, encBytes [1, 2, 3]), ([122], encBytes (List.replicate 109 0))], sig64⟩
+
+/-- `insert("zz", [0; m])` -/
+def insZ (m : Nat) : Op tinyS := .insert [122, 122] (.bytes (List.replicate m 0))
+
+/-- what `insZ 102` prepares on `rBig` when the pre-signing size check is left out -/
+def pBig : Prepared :=
+  match prepareG tinyS rBig (insZ 102) pk0 false with
+  | .ok p => p
+  | .error _ => ⟨rBig, .unit⟩
+
+/-- the empty builder plus `"z" ↦ [0; n]` -/
+def bldZ (n : Nat) : Builder := ({} : Builder).addValue [122] (.bytes (List.replicate n 0))
+
+/-! ### a byte string that is *not* a record -/
+
+/-- the two pairs of `r0` in the wrong order, `"t"` before `"id"` (still one complete RLP item) -/
 def r0Swapped : Bytes :=
   [209, 132, 1, 2, 3, 13, 1, 116, 131, 1, 2, 3, 130, 105, 100, 130, 118, 52]
 
-/-- `r0` with its outer length in the long form `f8 11` (non-canonical for 17 < 56 bytes) -/
-def r0LongHeader : Bytes :=
-  [248, 17, 132, 1, 2, 3, 13, 1, 130, 105, 100, 130, 118, 52, 116, 131, 1, 2, 3]
+/-- the decoder, run on it, reports the pairs as unsorted -/
+theorem r0Swapped_rejected : decode tinyS r0Swapped = .error (.custom .unsorted) := by
+  decide +kernel
 
-/-- `r0` with the last byte of the value of `"t"` (the public key) changed from 3 to 4 -/
-def r0TamperedValue : Bytes :=
-  [209, 132, 1, 2, 3, 13, 1, 130, 105, 100, 130, 118, 52, 116, 131, 1, 2, 4]
+theorem r0Swapped_header : decodeHeader r0Swapped = .ok (⟨true, 17⟩, r0Swapped.drop 1) := by
+  decide
 
-/-- `r0` with the last byte of the signature changed from 13 to 14 -/
-def r0TamperedSig : Bytes :=
-  [209, 132, 1, 2, 3, 14, 1, 130, 105, 100, 130, 118, 52, 116, 131, 1, 2, 3]
+/-- … so it does not satisfy the declarative description either -/
+theorem r0Swapped_not_wellFormed : ¬ WellFormed tinyS r0Swapped := by
+  intro h
+  obtain ⟨r, hr⟩ := (decode_iff_wellformed tinyS r0Swapped).2 h
+  rw [r0Swapped_rejected] at hr
+  cases hr
 
-/-- `r0` with the sequence number 1 replaced by 128 (`81 80`), signature kept -/
-def r0TamperedSeq : Bytes :=
-  [210, 132, 1, 2, 3, 13, 129, 128, 130, 105, 100, 130, 118, 52, 116, 131, 1, 2, 3]
+#print axioms r0Bytes_decodes
+#print axioms r0Swapped_rejected
 
 end EnrVerif
